@@ -980,7 +980,7 @@ def i_SHL(i, fmap):
         if count.value == 0:
             return
         if count.value == 1:
-            fmap[of] = x.bit(-1) ^ fmap(cf)
+            fmap[of] = x.bit(-1) ^ a.bit(-1)  # MSB(result) xor the new cf
         else:
             fmap[of] = top(1)
         if count.value <= a.size:
